@@ -127,10 +127,15 @@ func instance(t Target, sc Scenario) sched.Instance {
 	if tf, ok := t.(interface{ TokenFree() bool }); ok {
 		tokenFreeM = tf.TokenFree()
 	}
+	tokenFreeN := false
+	if tf, ok := t.(interface{ TokenFreeN() bool }); ok {
+		tokenFreeN = tf.TokenFreeN()
+	}
 	nT := len(sc.Programs)
 	pending := make([][]*hop, nT) // per thread: the append ops whose callback is running
 	depth := make([]int, nT)      // per thread: callback nesting
 	gateUsed := false
+	nested := 0 // tokens of calls made from inside a callback are unique per execution
 	var do func(s *sched.Scheduler, o, tok int)
 	do = func(s *sched.Scheduler, o, tok int) {
 		me := s.Me()
@@ -145,6 +150,9 @@ func instance(t Target, sc Scenario) sched.Instance {
 			pending[me] = pending[me][:len(pending[me])-1]
 			rec.end(s, h)
 		case opN:
+			if tokenFreeN {
+				tok = 0
+			}
 			h := rec.begin(s, opN, tok)
 			m.CallN(tok)
 			rec.end(s, h)
@@ -181,7 +189,8 @@ func instance(t Target, sc Scenario) sched.Instance {
 			defer func() { depth[me]-- }()
 			switch sc.Callback {
 			case cbCallM:
-				do(s, opM, tok+1)
+				nested++
+				do(s, opM, 900+nested)
 			case cbReadM:
 				do(s, opMCalls, 0)
 			case cbResetM:
@@ -189,7 +198,8 @@ func instance(t Target, sc Scenario) sched.Instance {
 			case cbResetAll:
 				do(s, opResetAll, 0)
 			case cbCallN:
-				do(s, opN, tok+1)
+				nested++
+				do(s, opN, 900+nested)
 			case cbGate:
 				// only the first callback of an execution blocks (two callbacks waiting for each
 				// other would be a deadlock of the harness, not of the generated code)
@@ -400,7 +410,14 @@ func equal(a, b []int) bool {
 
 // Scenarios enumerates the closed systems for a target.
 func Scenarios(t Target, level int) []Scenario {
+	hasN := true
+	if x, ok := t.(interface{ HasN() bool }); ok {
+		hasN = x.HasN()
+	}
 	ops := []int{opM, opN, opMCalls, opNCalls}
+	if !hasN {
+		ops = []int{opM, opMCalls}
+	}
 	if t.HasResets() {
 		ops = append(ops, opResetM, opResetAll)
 	}
@@ -408,12 +425,26 @@ func Scenarios(t Target, level int) []Scenario {
 	for _, a := range ops {
 		progs = append(progs, []int{a})
 	}
-	for _, a := range ops {
-		for _, b := range ops {
-			progs = append(progs, []int{a, b})
+	if level >= 1 {
+		for _, a := range ops {
+			for _, b := range ops {
+				progs = append(progs, []int{a, b})
+			}
+		}
+	} else {
+		// level 0: two-op programs only where the first op is a call or a reset
+		for _, a := range ops {
+			for _, b := range ops {
+				if a == opM || a == opResetM || a == opResetAll {
+					progs = append(progs, []int{a, b})
+				}
+			}
 		}
 	}
 	cbs := []int{cbRet, cbCallM, cbReadM, cbCallN, cbGate}
+	if !hasN {
+		cbs = []int{cbRet, cbCallM, cbReadM, cbGate}
+	}
 	if t.HasResets() {
 		cbs = append(cbs, cbResetM, cbResetAll)
 	}
